@@ -71,6 +71,9 @@ enum Cmd {
     DialAddr(Multiaddr, String, String), // address, abstract address name, abstract peer name
     Dial(PeerId, String),
     AddKnown(PeerId, Vec<Multiaddr>),
+    /// the application is busy: the node's task (which polls the manager and, through it, the
+    /// transports) does not run for this many milliseconds
+    Stall(u64),
     Stop,
 }
 
@@ -105,6 +108,10 @@ async fn node_task(mut node: Litep2p, mut rx: mpsc::Receiver<Cmd>, log: Log, nam
                     let r = node.dial(&p).await;
                     let (ret, retk) = classify(&r);
                     log.lock().unwrap().push(json!({"e": "cmd", "k": "dial", "peer": pname, "ret": ret, "retk": retk}));
+                }
+                Some(Cmd::Stall(ms)) => {
+                    // the node (manager, transports) is not polled while this handler runs
+                    tokio::time::sleep(Duration::from_millis(ms)).await;
                 }
                 Some(Cmd::AddKnown(p, addrs)) => {
                     let named: Vec<String> = addrs.iter().map(|a| an(a)).collect();
@@ -220,7 +227,8 @@ async fn run_world(w: usize, seed: u64, steps: usize) -> Vec<String> {
     let (lag, canary_task) = canary();
     let names = Arc::new(Mutex::new(HashMap::new()));
     let anames = Arc::new(Mutex::new(HashMap::new()));
-    let lims = [(None, None), (Some(1), Some(1)), (Some(2), Some(1)), (Some(1), Some(2)), (None, Some(1)), (Some(0), None)];
+    // half of the nodes have no outgoing limit: a silence there cannot be the known limit-rejection finding
+    let lims = [(None, None), (Some(1), Some(1)), (Some(2), Some(1)), (Some(1), Some(2)), (None, Some(1)), (Some(0), None), (Some(2), None), (None, None)];
     let mut nodes: Vec<NodeH> = vec![];
     let mut cfgs = vec![];
     for i in 0..3 {
@@ -305,7 +313,31 @@ async fn run_world(w: usize, seed: u64, steps: usize) -> Vec<String> {
     for _ in 0..steps {
         let i = rng.gen_range(0..3);
         let j = (i + rng.gen_range(1..3)) % 3;
-        match rng.gen_range(0..10) {
+        match rng.gen_range(0..13) {
+            10..=12 => {
+                // busy application: while node i does not poll, a raw inbound connection that fails its
+                // handshake and the outcome of an outbound dial become ready together
+                let (a, _) = nodes[i].addrs[kinds(&mut rng)].clone();
+                let raw = without_p2p(&a);
+                let port = raw.iter().find_map(|p| match p { Protocol::Tcp(p) | Protocol::Udp(p) => Some(p), _ => None }).unwrap();
+                let udp = raw.iter().any(|p| matches!(p, Protocol::Udp(_)));
+                let junk = rng.gen_bool(0.5);
+                tokio::spawn(async move {
+                    use tokio::io::AsyncWriteExt;
+                    if udp {
+                        if let Ok(u) = tokio::net::UdpSocket::bind("127.0.0.1:0").await {
+                            let _ = u.send_to(&[0xc3u8; 1200], ("127.0.0.1", port)).await;
+                        }
+                    } else if let Ok(mut s) = tokio::net::TcpStream::connect(("127.0.0.1", port)).await {
+                        if junk {
+                            let _ = s.write_all(b"\x13/multistream/1.0.0\n\xff\xff junk").await;
+                        }
+                    }
+                });
+                let d = &dead[rng.gen_range(0..dead.len())];
+                let _ = nodes[i].tx.send(Cmd::DialAddr(d.0.clone(), d.1.clone(), d.2.clone())).await;
+                let _ = nodes[i].tx.send(Cmd::Stall([120u64, 250, 400][rng.gen_range(0..3)])).await;
+            }
             0..=3 => {
                 let (a, an) = nodes[j].addrs[kinds(&mut rng)].clone();
                 let _ = nodes[i].tx.send(Cmd::DialAddr(a, an, nodes[j].name.clone())).await;
